@@ -12,8 +12,11 @@ VIEW_RULE = ("programs = root extents (D 1..4, sizes 0..6, num_elements <= 240) 
              "current shape + queries; distinct = different program text; non-trivial = at least one operation and a queried view with >= 2 elements")
 
 
-def views_harness(modes, quick, thorough, name="views", flags=None, src="views.cpp"):
-    return {"name": name, "src": src, "flags": flags or ["-O1", "-g"], "modes": modes, "programs": {"quick": quick, "thorough": thorough}}
+def views_harness(modes, quick, thorough, name="views", flags=None, src="views.cpp", modes_thorough=None):
+    h = {"name": name, "src": src, "flags": flags or ["-O1", "-g"], "modes": modes, "programs": {"quick": quick, "thorough": thorough}}
+    if modes_thorough:
+        h["modes_thorough"] = modes_thorough  # e.g. + "exhaustive": every root with D<=3, sizes 0..3, every in-domain op sequence of length <= 2
+    return h
 
 
 def nontrivial(prog_lines, answer_lines):
